@@ -183,9 +183,10 @@ RETCODE adfMountHd ( struct AdfDevice * const dev )
         vol->volName=NULL;
         dev->nVol++;
 
-        vol->firstBlock = (int32_t) rdsk.cylBlocks * part.lowCyl;
-        vol->lastBlock = ( part.highCyl + 1 ) * (int32_t) rdsk.cylBlocks - 1;
-        vol->rootBlock = (vol->lastBlock - vol->firstBlock+1)/2;
+        /* (values from the disk: computed without signed overflow, validated by adfMount) */
+        vol->firstBlock = (int32_t) ( (uint32_t) rdsk.cylBlocks * (uint32_t) part.lowCyl );
+        vol->lastBlock = (int32_t) ( ( (uint32_t) part.highCyl + 1U ) * (uint32_t) rdsk.cylBlocks - 1U );
+        vol->rootBlock = (int32_t) ( ( (int64_t) vol->lastBlock - vol->firstBlock + 1 ) / 2 );
         vol->blockSize = part.blockSize*4;
 
         len = (unsigned) min ( 31, (int) (unsigned char) part.nameLen );   /* (nameLen is a plain char) */
